@@ -106,6 +106,10 @@ def e_exact(x, y, z):
 '''
 
 
+ALWAYS = ['SMFixedContext(2, 3, RM.RTZ, OV.WRAP)', 'SMFixedContext(-3, 3, RM.RNE, OV.WRAP)', 'SMFixedContext(0, 3, RM.RNA, OV.WRAP)', 'SMFixedContext(1, 2, RM.RTZ, OV.WRAP)',
+          'FixedContext(True, 2, 3, RM.RTZ, OV.WRAP)', 'FixedContext(False, 0, 2, RM.RNE, OV.WRAP)']
+
+
 def chain_steps():
     from fpy2.strategies import (unfold_special, unfold_neg_zero, unfold_overflow, float_to_fixed, rescale_fixed, simplify)
     return [
@@ -162,6 +166,8 @@ def shard(i: int, n: int, tier: str, seed: int) -> Result:
     random.Random(2024 + seed).shuffle(allc)
     # 640 sampled contexts per seed in quick, 12000 of the 32936 in thorough (all of them took a loaded machine past the shard budget)
     allc = allc[:640] if quick else allc[:12000]
+    # contexts behind findings of thorough runs, in every run (F73: 3-bit sign-magnitude wrap whose two overflow probes coincide)
+    allc = [c for c in ALWAYS if c not in allc] + allc
     mine = allc[i::n]
     changed = variants_n = 0
     specials = [o for (_, o, _) in operands.specials() if isinstance(o, Float)]
